@@ -718,6 +718,13 @@ func (e *Env) evalCall(x *Expr) Val {
 		a := e.eval(x.Args[0])
 		gt := e.lookupType(exprTypeName(x.Args[1]))
 		return Val{sx("i_val", a.t), SInt, gt}
+	case "ref": // ref(x, *T): a ghost reference (Int) viewed as a pointer of type *T
+		a := e.eval(x.Args[0])
+		gt := e.lookupType(exprTypeName(x.Args[1]))
+		if gt == nil {
+			e.fail("unknown type %s", exprTypeName(x.Args[1]))
+		}
+		return Val{a.t, SInt, gt}
 	case "visited": // visited(k): key already produced by the enclosing map-range loop
 		if e.li != nil && e.li.iterVal != nil {
 			k := e.eval(x.Args[0])
